@@ -151,6 +151,7 @@ func commandRunner(command string, params string, unitdir string) error {
 	}
 	cmd.Stdout = stdout
 	cmd.Stderr = stdout
+	verifCrashPoint("runner.before_exec")
 	err = cmd.Start()
 	if err != nil {
 		return err
@@ -192,6 +193,7 @@ loop:
 
 		return err
 	}
+	verifCrashPoint("runner.after_child_exit")
 	if cmd.ProcessState.Success() {
 		err = status.UpdateBasicStatus(statusFilename, WorkStateSucceeded, cmd.ProcessState.String(), stdoutSize(unitdir))
 		if err != nil {
